@@ -66,9 +66,10 @@ def scale(env, v):
     return v
 
 
-def propagate(env, which, v, elems, dt, first=None):
+def propagate(env, which, v, elems, dt, first=None, other_a=None):
     """first: an earlier propagate() call on the same propagator instance (its result is discarded): the propagator must
-    answer the second date from its stored orbit, unaffected by the first call"""
+    answer the second date from its stored orbit, unaffected by the first call.  other_a: that earlier call served *another
+    orbit* (same elements but this semi-major axis), handed to the instance through its `orbit` setter as Orbit.propagate does"""
     mod = env.mod("beyond.propagators." + ("kepler" if which == "kepler" else "j2"))
     cls = mod.Kepler if which == "kepler" else mod.J2
     if env.symbolic:
@@ -81,13 +82,25 @@ def propagate(env, which, v, elems, dt, first=None):
             CTX.assume(re > 0, j2c > 0)
             mod.Earth = types.SimpleNamespace(mu=v["mu"], r=re, J2=j2c)
         p = cls.__new__(cls)
-        p._orbit = sym_orbit(env, v, v["mu"], 0, elems)
-        if first is not None:
+        if other_a is not None:
+            base = elems if elems is not None else [v[k] for k in ELEMS]
+            p.orbit = sym_orbit(env, v, v["mu"], 0, [other_a] + list(base[1:]))
             p.propagate(SymDate(first))
+            p.orbit = sym_orbit(env, v, v["mu"], 0, elems)
+        else:
+            p._orbit = sym_orbit(env, v, v["mu"], 0, elems)
+            if first is not None:
+                p.propagate(SymDate(first))
         out = p.propagate(SymDate(dt))
         return list(out), out.date.t
     p = cls()
     orb = conc_orbit(v, elems)
+    if other_a is not None:
+        base = elems if elems is not None else [v[k] for k in ELEMS]
+        oth = conc_orbit(v, [float(other_a)] + list(base[1:]))
+        p.orbit = oth
+        p.propagate(oth.date + _td(seconds=float(first)))
+        first = None
     p.orbit = orb
     if first is not None:
         p.propagate(orb.date + _td(seconds=float(first)))
@@ -99,13 +112,19 @@ def n_of(env, mu, a):
     return env.sqrt(mu / abs(a) ** 3)
 
 
-def kepler_case(family, repeat=False):
+def kepler_case(family, repeat=False, reuse=False):
     def pre(v):
-        return [v["a"] > 0, v["e"] < 1] if family == "ell" else [v["a"] < 0, v["e"] > 1]
+        p = [v["a"] > 0, v["e"] < 1] if family == "ell" else [v["a"] < 0, v["e"] > 1]
+        if reuse:
+            p += [v["a2"] > 0] if family == "ell" else [v["a2"] < 0]
+        return p
 
     def run(env, v):
         v = scale(env, v)
-        out, t = propagate(env, "kepler", v, None, v["dt"], first=(v["dt1"] if repeat else None))
+        if reuse and not env.symbolic:
+            v["a2"] = v["a2"] * 7e6 if abs(v["a2"]) < 1e5 else v["a2"]
+        out, t = propagate(env, "kepler", v, None, v["dt"], first=(v["dt1"] if (repeat or reuse) else None),
+                           other_a=(v["a2"] if reuse else None))
         return {"five": out[:5] if env.symbolic else [out[0], out[1]], "angles": [Ang(x) for x in out[2:5]],
                 "M": Mod2pi(out[5]) if not env.symbolic else out[5], "date": t}
 
@@ -115,10 +134,12 @@ def kepler_case(family, repeat=False):
         five = [v[k] for k in ELEMS[:5]]
         return {"five": five if env.symbolic else five[:2], "angles": [Ang(v[k]) for k in ("i", "Om", "om")],
                 "M": v["M"] + n_of(env, mu, v["a"]) * v["dt"], "date": v["dt"]}
-    return Case(f"kepler/{family}" + ("/repeat" if repeat else ""), INS + ([("dt1", "real")] if repeat else []), run, ref, pre=pre,
+    return Case(f"kepler/{family}" + ("/repeat" if repeat else "") + ("/reuse" if reuse else ""),
+                INS + ([("dt1", "real")] if (repeat or reuse) else []) + ([("a2", "real")] if reuse else []), run, ref, pre=pre,
                 tol=1e-6, abs_tol=1e-6,
                 desc=f"{family}: Kepler.propagate leaves a, e, i, Omega, omega unchanged and advances M by sqrt(mu/|a|^3) dt"
-                     + (" -- also when the same propagator instance has answered another date before" if repeat else ""))
+                     + (" -- also when the same propagator instance has answered another date before" if repeat else "")
+                     + (" -- also when the same propagator instance has served another orbit (another semi-major axis) before" if reuse else ""))
 
 
 def kepler_compose_case():
@@ -203,7 +224,8 @@ def j2_special_case(kind):
 
 def all_cases(tier):
     return [kepler_case("ell"), kepler_case("hyp"), kepler_compose_case(), j2_case(), j2_special_case("polar"),
-            j2_special_case("critical"), kepler_case("ell", True), kepler_case("hyp", True), j2_case(True)]
+            j2_special_case("critical"), kepler_case("ell", True), kepler_case("hyp", True), j2_case(True),
+            kepler_case("ell", reuse=True), kepler_case("hyp", reuse=True)]
 
 
 def groups(tier):
